@@ -418,8 +418,7 @@ Lemma spec_ok_build_id_complete d start base tree :
   spec_ok_build_id d tree (build_id_current d start base tree) = true.
 Proof.
   unfold spec_ok_build_id.
-  destruct (current_conservative d start base tree) as [_ [k [Hk _]]]. rewrite Hk at 1.
-  rewrite named_after_with_suffix. simpl.
+  rewrite (proj1 (current_above d start base tree)). simpl.
   apply negb_true_iff. apply has_top_fresh. apply (proj1 current_fresh).
 Qed.
 
@@ -437,9 +436,3 @@ Proof.
     + unfold with_suffix. apply dec3_prefix.
   - apply negb_true_iff. exact (attempt_fresh start base tree (step, name) Hinv).
 Qed.
-
-(* what the translator checked in util.sh lock_acquire and in the five entry
-   scripts (it refuses any other text): the owner comparison modelled by
-   [lock_acquire], and the order build_id, build_init, lock_acquire *)
-Lemma lock_tie : lock_acquire_compares_owner = true /\ lock_taken_after_build_init = true.
-Proof. split; reflexivity. Qed.
